@@ -624,7 +624,7 @@ func writeEvidence(cr *checkRun, prop, tier string, groups []*oblGroup, nClaimed
 	sort.Strings(abs)
 	sort.Strings(assumptions)
 	assumptions = append(assumptions,
-		"integers: machine arithmetic (Int + explicit wrap), no overflow assumption",
+		"integers: machine arithmetic (Int + explicit wrap), no overflow assumption; slice and string lengths are at most 2^48 (address space)",
 		"extern-frame: library functions without contract do not write repository-typed heap locations unless passed a callback",
 		"atomics and sync.Map/atomic.Value operations are modelled sequentially on ghost state (DESIGN §5.3)",
 		"pointer parameters of non-struct element type do not alias struct fields",
